@@ -636,6 +636,7 @@ fn real_main(args: Vec<String>) -> i32 {
                 width: arg_val(&args, "--width").and_then(|s| s.parse().ok()).unwrap_or(80),
                 tab: arg_val(&args, "--tab").and_then(|s| s.parse().ok()).unwrap_or(2),
                 reorder: args.iter().any(|a| a == "--reorder"),
+                blank: arg_val(&args, "--blank").and_then(|s| s.parse().ok()).unwrap_or(2),
             };
             let src = read_stdin();
             let real = fmtimpl::Real { stack: None };
